@@ -351,12 +351,71 @@ Section Conf.
                                         | None => true end) fs
         | None => false
         end
-      | TList e, VList et es => (et =? type_code e) && forallb (fun x => (type_of x =? type_code e) && conf f e x) es
-      | TSet e, VSet et es => (et =? type_code e) && forallb (fun x => (type_of x =? type_code e) && conf f e x) es
+      | TList e, VList et es => (et =? type_code e) && valid_type et && forallb (fun x => (type_of x =? type_code e) && conf f e x) es
+      | TSet e, VSet et es => (et =? type_code e) && valid_type et && forallb (fun x => (type_of x =? type_code e) && conf f e x) es
       | TMap k e, VMap kt vt es =>
-        (kt =? type_code k) && (vt =? type_code e) &&
+        (kt =? type_code k) && (vt =? type_code e) && valid_type kt && valid_type vt &&
         forallb (fun p => (type_of (fst p) =? type_code k) && conf f k (fst p) && (type_of (snd p) =? type_code e) && conf f e (snd p)) es
       | _, _ => false
       end
     end.
+
+  (* [compat]: the two descriptors declare the same kinds wherever both declare something (the domain of the
+     property: the target's field sets are subsets / supersets of the source's, kinds are not changed) *)
+  Fixpoint compat (fuel : nat) (from to : ty) {struct fuel} : bool :=
+    match fuel with
+    | O => true
+    | S f =>
+      match from, to with
+      | TScalar a, TScalar b => a =? b
+      | TStruct a, TStruct b =>
+        match struct_def d a, struct_def d b with
+        | Some ffs, Some tfs => forallb (fun ff => match find_fld (fld_id ff) tfs with
+                                                   | Some tf => compat f (fld_ty ff) (fld_ty tf)
+                                                   | None => true end) ffs
+        | _, _ => false
+        end
+      | TList a, TList b | TSet a, TSet b => compat f a b
+      | TMap ka a, TMap kb b => compat f ka kb && compat f a b
+      | _, _ => false
+      end
+    end.
+
+  (* [full o]: the value conforms completely to the descriptor: no unknown field, declared kinds everywhere, and no
+     field is owed at any STOP under the options (all tracked required fields present; under WriteDefault also the
+     tracked non-required ones) *)
+  Variable o : cut_opts.
+  Definition complete (ffs : list fdesc) (ids : list Z) : bool :=
+    forallb (fun f => mem_id (fld_id f) ids || negb (tracked o f) || (negb (fld_req f =? 1) && negb (o_write_default o))) ffs.
+  Fixpoint full (fuel : nat) (t : ty) (v : tval) {struct fuel} : bool :=
+    match fuel with
+    | O => false
+    | S f =>
+      match t, v with
+      | TScalar c, _ => type_of v =? c
+      | TStruct a, VStruct fs =>
+        match struct_def d a with
+        | Some ffs =>
+          forallb (fun p => match find_fld (fst p) ffs with
+                            | Some ff => (type_of (snd p) =? type_code (fld_ty ff)) && full f (fld_ty ff) (snd p)
+                            | None => false end) fs
+          && (o_not_check_req o || complete ffs (map fst fs))
+        | None => false
+        end
+      | TList e, VList et es => forallb (full f e) es
+      | TSet e, VSet et es => forallb (full f e) es
+      | TMap k e, VMap kt vt es => forallb (fun p => full f k (fst p) && full f e (snd p)) es
+      | _, _ => false
+      end
+    end.
 End Conf.
+
+(* descriptor tables as the IDL parser produces them: field ids are int16, scalar type codes are the seven scalar kinds *)
+Fixpoint ty_valid (t : ty) : bool :=
+  match t with
+  | TScalar c => is_scalar c
+  | TStruct _ => true
+  | TList e | TSet e => ty_valid e
+  | TMap k e => ty_valid k && ty_valid e
+  end.
+Definition defs_okb (d : defs) : bool := forallb (forallb (fun f => in_sb 16 (fld_id f) && ty_valid (fld_ty f))) d.
